@@ -260,6 +260,23 @@ fn gen_hat_string(rng: &mut Rng) -> String {
         _ => gen_string(rng, 8),
     }
 }
+/// Idempotent custom sanitizers whose result depends on edge white space / on position.
+fn spaces_to_underscores(s: String) -> String {
+    s.replace(' ', "_")
+}
+fn first_four_chars(s: String) -> String {
+    s.chars().take(4).collect()
+}
+fn gen_pad_string(rng: &mut Rng) -> String {
+    let mut t = gen_string(rng, 6);
+    if rng.chance(1, 2) {
+        t.insert_str(0, *rng.pick(&[" ", "  ", "     ", "\t", "\u{2003}"]));
+    }
+    if rng.chance(1, 3) {
+        t.push(' ');
+    }
+    t
+}
 fn gen_dash_string(rng: &mut Rng) -> String {
     match rng.below(4) {
         0 => "-".repeat(rng.range_usize(1, 4)),
